@@ -125,7 +125,34 @@ def bounded_roundtrip(tier, seed):
     return n, words, fail
 
 
+def namespace_links_search():
+    """on every bundled site, a link whose prefix is a namespace name / alias of that site is a link into that namespace,
+    never an interwiki or language link (a namespace wins over an interwiki prefix of the same name)"""
+    from contracts import c12, docs
+    n = 0
+    for lang, si in c12.sites():
+        names = set()
+        for v in si["namespaces"].values():
+            names.update(x for x in (v["*"], v.get("canonical")) if x)
+        names.update(a["*"] for a in si.get("namespacealiases", []))
+        for nm in sorted(names):
+            n += 1
+            text = f"[[:{nm}:Some page|label]]"
+            try:
+                tree = docs.parse(text, lang)
+            except Exception as e:  # noqa: BLE001
+                return n, {"detail": f"[{lang}] {text!r} raised {type(e).__name__}", "witness": {"site": lang, "wikitext": text}, "class": "raise"}
+            kinds = [c.__class__.__name__ for c in tree.allchildren() if c.__class__.__name__.endswith("Link")]
+            if any(k in ("InterwikiLink", "LangLink") for k in kinds) or not kinds:
+                return n, {"detail": f"[{lang}] {text!r}: link classes {kinds}; {nm!r} is a namespace of this site", "witness": {"site": lang, "wikitext": text}, "class": "namespace-link-as-interwiki"}
+    return n, None
+
+
 def bounded(chk):
+    n0, f0 = namespace_links_search()
+    chk.bounded_result("links_into_every_namespace_of_every_site", n0, n0, True,
+                       "for each of the 12 bundled sites, [[:<name>:Some page|label]] for every namespace name, canonical name and alias of the site: a link into that namespace, never an interwiki / language link",
+                       [f0] if f0 else [])
     n, words, fail = bounded_roundtrip(chk.tier, chk.seed)
     chk.bounded_result("grammar_roundtrip", n, n, False,
                        f"{n} generated documents (sections 2-4 levels with body text, paragraphs, nested bullet/numbered lists, definition lists in both spellings followed directly by other list kinds, list / text / table / list separated by single newlines only, tables with header/data cells, ''/'''/<b>/<i> styles, internal/external links, refs, preformatted lines) in en/de/fr; {words} words compared: every word once, in order, under the denoted structural ancestors",
